@@ -36,10 +36,10 @@ Fixpoint commit_A (gs : list group) : list kv * outcome :=
   match gs with
   | [] => ([], Done)
   | g :: rest =>
-      if negb (g_ok g) then ([], ErrValue)
+      if negb (g_ok g) then ([], Err (g_err g))
       else match commit_items_A (g_items g) with
            | (l, Done) => let (l', o) := commit_A rest in ((l ++ l')%list, o)
-           | (l, ErrValue) => (l, ErrValue)
+           | (l, Err e) => (l, Err e)
            end
   end.
 (* discipline B: whole files up to the first file with a failing check or leaf *)
@@ -47,7 +47,8 @@ Fixpoint commit_B (gs : list group) : list kv * outcome :=
   match gs with
   | [] => ([], Done)
   | g :: rest =>
-      if g_ok g && forallb it_ok (g_items g)
+      if negb (g_ok g) then ([], Err (g_err g))
+      else if forallb it_ok (g_items g)
       then let (l', o) := commit_B rest in ((group_writes g ++ l')%list, o)
       else ([], ErrValue)
   end.
@@ -56,9 +57,10 @@ Fixpoint commit_C (gs : list group) : list kv * outcome :=
   match gs with
   | [] => ([], Done)
   | g :: rest =>
-      if negb (g_ok g) then ([], ErrValue)
+      if negb (g_ok g) then ([], Err (g_err g))
       else match g_items g with
            | [it] => if negb (it_ok it) then ([], ErrValue)
+                     else if negb (it_ser it) then ([], ErrType)
                      else let (l', o) := commit_C rest in (item_kv it :: l', o)
            | _ => ([], ErrValue)
            end
@@ -73,7 +75,7 @@ Fixpoint commit_steps (ss : list (mode * path * list group)) : list (path * kv) 
   | (m, r, gs) :: rest =>
       match commit m gs with
       | (l, Done) => let (l', o) := commit_steps rest in ((tag r l ++ l')%list, o)
-      | (l, ErrValue) => (tag r l, ErrValue)
+      | (l, Err e) => (tag r l, Err e)
       end
   end.
 Definition commit_call (c : call) : list (path * kv) := fst (commit_steps (steps c)).
@@ -131,9 +133,10 @@ Fixpoint is_prefix (r p : path) : bool :=
   end.
 
 (* a call whose every check passes: the group-level checks and every leaf of every file visit *)
-Definition group_valid (g : group) : bool := g_ok g && forallb it_ok (g_items g).
+Definition group_valid (m : mode) (g : group) : bool :=
+  g_ok g && forallb (fun it => it_ok it && match m with MC => it_ser it | _ => true end) (g_items g).
 Definition call_valid (c : call) : bool :=
-  forallb (fun s : mode * path * list group => forallb group_valid (snd s)) (steps c).
+  forallb (fun s : mode * path * list group => forallb (group_valid (fst (fst s))) (snd s)) (steps c).
 
 (* os.path.join of the component list *)
 Fixpoint flatten (p : path) : string :=
